@@ -186,7 +186,8 @@ K["assign_2d_range_range_bu"] = dict(
            "            forall|a: int, b: int| 0 <= a < sink.r && 0 <= b < sink.c ==> #[trigger] sink.at(a, b) == "
            "(if (a < r && a < ix1.d@.len() && ix1.d@[a] && hit(ix2.d@, ix2.d@.len() as int, b)) || (a == r && hit(ix2.d@, cix as int, b)) { source } else { old(sink).at(a, b) }),"])
 
-# x[I, mask] = v
+# x[I, mask] = v   -- the kernel uses the position in I as the row (known finding; the existing suite pins that behaviour, see
+# known_findings.json): the contract below is the property's, no invariant can make it hold
 K["assign_2d_range_range_ub"] = dict(
     mask=False,   # mask length is guarded by the dispatch arm; the index-vector part is not (atomic stays)
     structs="Assign2DRRUB", params=["sink", "ix1", "ix2", "source"], scalars=["source"], sig="sink: &mut Mat, ix1: &IVec, ix2: &BVec, source: u64",
@@ -194,23 +195,7 @@ K["assign_2d_range_range_ub"] = dict(
     valid="(ix_ok(ix1.d@, old(sink).r as int) && ix2.d@.len() == old(sink).c)", masklen="ix2.d@.len() == old(sink).c",
     addressed="(forall|b: int| 0 <= b < ix2.d@.len() && #[trigger] ix2.d@[b] ==> b < old(sink).c && ix_ok(ix1.d@, old(sink).r as int))",
     value=["forall|a: int, b: int| 0 <= a < old(sink).r && 0 <= b < old(sink).c ==> #[trigger] final(sink).at(a, b) == (if hit(ix1.d@, ix1.d@.len() as int, a) && ix2.d@[b] { source } else { old(sink).at(a, b) })"] + SHAPE,
-    loops=["    invariant " + SK + ", ix2.d@.len() >= 1,\n"
-           "      forall|k: int| 0 <= k < rix ==> 1 <= #[trigger] ix1.d@[k] && ((exists|b: int| 0 <= b < ix2.d@.len() && #[trigger] ix2.d@[b]) ==> ix1.d@[k] <= sink.r),\n"
-           "      rix > 0 ==> (forall|b: int| 0 <= b < ix2.d@.len() && #[trigger] ix2.d@[b] ==> b < sink.c),\n"
-           "      forall|a: int, b: int| 0 <= a < sink.r && 0 <= b < sink.c ==> #[trigger] sink.at(a, b) == (if hit(ix1.d@, rix as int, a) && b < ix2.d@.len() && ix2.d@[b] { source } else { old(sink).at(a, b) }),",
-           ("        invariant " + SK + ", ix2.d@.len() >= 1, rix < ix1.d@.len(), ix1.d@[rix as int] >= 1, r == ix1.d@[rix as int] - 1,\n"
-            "          forall|k: int| 0 <= k < rix ==> 1 <= #[trigger] ix1.d@[k] && ((exists|b: int| 0 <= b < ix2.d@.len() && #[trigger] ix2.d@[b]) ==> ix1.d@[k] <= sink.r),\n"
-            "          rix > 0 ==> (forall|b: int| 0 <= b < ix2.d@.len() && #[trigger] ix2.d@[b] ==> b < sink.c),\n"
-            "          forall|b: int| 0 <= b < c && #[trigger] ix2.d@[b] ==> b < sink.c && r < sink.r,\n"
-            "          forall|a: int, b: int| 0 <= a < sink.r && 0 <= b < sink.c ==> #[trigger] sink.at(a, b) == "
-            "(if ((hit(ix1.d@, rix as int, a) && b < ix2.d@.len()) || (a == r && b < c)) && ix2.d@[b] { source } else { old(sink).at(a, b) }),",
-            "proof { lemma_cnt_lt(ix2.d@, ix2.d@.len() as int); }")],
-    post_proof="proof { lemma_cnt_lt(ix2.d@, ix2.d@.len() as int); }")
-
-# loop variable names the contracts above were written with (by loop ordinal); see vmat.mode_fn
-LOOPVARS = {'assign_1d_scalar': [], 'set_1d_range': ['i'], 'set_1d_range_b': ['i'], 'set_1d_range_vec': ['i'], 'set_1d_range_vec_b': ['i'], 'assign_2d_all_scalar': ['i'], 'assign_2d_scalar_all_scalar': ['i'], 'assign_2d_scalar_range': ['i'], 'assign_2d_scalar_range_b': ['cix'], 'assign_2d_all_range_b': ['cix', 'rix'], 'assign_2d_range_all_b': ['cix', 'rix'], 'assign_2d_range_range': ['rix', 'cix'], 'assign_2d_range_range_b': ['r', 'c'], 'assign_2d_range_range_bu': ['r', 'cix'], 'assign_2d_range_range_ub': ['rix', 'c']}
-for _n, _v in LOOPVARS.items():
-    K[_n]["loopvars"] = _v
+    loops=["    invariant " + SK + ",", "          invariant " + SK + ","])
 
 MODES = {
     "value": "%s (struct %s): with every index valid the kernel returns normally, every addressed element holds the assigned value, every other element and the shape are unchanged (any matrix size)",
